@@ -638,7 +638,12 @@ def gen_consume(ctx, rng):
                 ops = consumer_ops(rng, fam, 2, dt, a)
                 layouts = ["C"] + (["strided"] if vname == "canonical" else [])
                 for lay in layouts:
-                    for cp in (None, True, False):
+                    copies = (None, True, False)
+                    if quick and (not canon or lay != "C"):
+                        # inside the regions of the open findings (these inputs can kill the worker, a restart costs seconds):
+                        # one value of `copy` per variant in the quick tier, rotated by the seed; all three in the thorough tier
+                        copies = (copies[(k + seed) % 3],)
+                    for cp in copies:
                         tid = f"use-sp-{k}"; k += 1
                         spec = {"via": "scipy-variant", "kind": kind, "shape": [4, 5], "dtype": dt, "idx_dtype": ["int32", "int64"][(i + seed) % 2],
                                 "entries": [[int(r), int(c), int(v)] for r, c, v in entries], "parts_layout": lay}
@@ -668,6 +673,8 @@ def gen_consume(ctx, rng):
                 lays = [lay if (which == "all" or (which == "values" and j == narr - 1) or (which == "first" and j == 0)) else "C" for j in range(narr)]
                 if which == "first" and narr == 1:
                     continue
+                if quick and which != "values" and lay in ("strided", "negative") and (i + seed + len(lay)) % 5:
+                    continue   # a strided pointer / index array usually kills the worker: one family per quick run, all in thorough
                 tid = f"use-ca-{k}"; k += 1
                 tasks.append({"id": tid, "kind": "consume", "ops": [o for o, _e, _n in ops],
                               "input": dict(base, via="arrays-layout", layouts=lays)})
@@ -1810,7 +1817,20 @@ def replay(ctx, path):
     case, fam = f.get("case", {}), f.get("family")
     print(f"replaying {fam}: {str(f.get('detail'))[:300]}")
     ctx2 = core.Ctx(PID, obj.get("tier", ctx.tier), int(obj.get("seed", ctx.seed)))
-    if isinstance(case, dict) and "task" in case:
+    if isinstance(case, dict) and isinstance(case.get("task"), dict) and case["task"].get("kind") == "consume":
+        # the expected values live in the generator: rebuild the run's tasks (same rng stream as run()) and pick this one
+        rng = gen.rng_for(ctx2.seed, PID)
+        gen_roundtrips(ctx2, rng); gen_orders(ctx2, rng); gen_ops(ctx2, rng); gen_determine(ctx2, rng)
+        ownership_programs(ctx2, rng); lifetime_programs(ctx2, rng)
+        tasks, meta = gen_consume(ctx2, rng)
+        pick = [t for t in tasks if meta[t["id"]]["input"] == case.get("input") and t.get("copy") == case.get("copy")
+                and meta[t["id"]]["dt"] == case.get("dtype")]
+        if not pick:
+            print("case not in this tier/seed")
+            return 1
+        res = run_tasks(ctx2, pick[:1])
+        check_consume(ctx2, pick[:1], meta, res)
+    elif isinstance(case, dict) and "task" in case:
         t = dict(case["task"], id="replay", kind="op")
         a_specs = t["operands"]
         arrs = [dec_vals(sp["vals"], sp["dtype"]).reshape(sp["shape"]) if sp["via"] in ("numpy", "scipy") else None for sp in a_specs]
